@@ -534,6 +534,9 @@ def main(argv=None):
             import coremodel
             import coreprop
             r = coremodel.replay_warm(payload, coreprop.same)
+        elif payload.get("kind") == "serdesast":
+            import serdesasttie
+            r = serdesasttie.replay(payload)
         else:
             r = mod.replay(payload)
         print(json.dumps(r, indent=1, default=str))
